@@ -82,6 +82,12 @@ func parseExtensions(e []AnyExtension) ([]config.ExtensionConfig, error) {
 				return nil, fmt.Errorf("field '%v' can't be casted properly", innerStructTyp.Name)
 			}
 
+			if custom, isCustom := innerStructAny.(CustomExtension); isCustom {
+				if _, err := cert.OidFromString(custom.OidStr); err != nil {
+					return nil, fmt.Errorf("extension number %d: '%v' is not a valid oid: %v", i, custom.OidStr, err)
+				}
+			}
+
 			out = append(out, innerStruct)
 		}
 
